@@ -399,6 +399,16 @@ pub fn oracle_c03(ctx: &Ctx, sub: &str, idx: u64, case: &Case, obs: &Observed, o
     if si.md5_digest() != &inf.md5 || si.total_samples() as u64 != inf.total || si.sample_rate() != inf.rate as usize || si.channels() != inf.channels as usize || si.bits_per_sample() != inf.bps as usize {
         out.violation("C03|accessors-vs-bytes", "StreamInfo accessors disagree with the serialised STREAMINFO".to_string(), rp());
     }
+    // the STREAMINFO block is the same 42 bytes whichever in-memory sink the stream is written to
+    // (the MD5 starts at byte 26, i.e. not on a word boundary of the word-based sink)
+    if obs.bytes.len() >= 42 && obs.bytes.len() < 200_000 {
+        if let Ok((_, b64)) = enc::to_bytes_u64(&obs.stream) {
+            out.count("streaminfo_also_read_from_the_u64_sink");
+            if b64.len() < 42 || b64[..42] != obs.bytes[..42] {
+                out.violation("C03|u64-sink|streaminfo-differs", format!("the first 42 bytes written into MemSink<u64> differ from those written into ByteSink: {:02x?} vs {:02x?}", &b64[..42.min(b64.len())], &obs.bytes[..42]), rp());
+            }
+        }
+    }
 }
 
 /// C04: block-size and frame-size bounds.
